@@ -21,7 +21,7 @@ def _claim(pid, text, note, technique, design):
 _COMMON_NOTE = ("Trusted: Coq kernel + vm_compute (BigZ/primitive ints only in the executable instance); hand-written Gallina model validated against the code on sampled inputs only; "
                 "harness (free-module group, instrumented merlin copy, MSM log); field / vector-space laws are hypotheses; Merlin/Blake2b as random oracles and knowledge soundness of the "
                 "inner-product argument are NOT proved. No axioms.")
-_claim("C01", "Completeness is a theorem about the model (C01_completeness, closed under the global context): for every bit length, aggregation m = 2^a <= capacity, extension degree, valid witness, nonce assignment and batch weight, the code-shaped prover's output makes the code-shaped verifier's final multiscalar product vanish (non-zero challenges, y <> 1). It composes the textbook weighted-inner-product completeness for any number of rounds, the range reduction with promises, the refinement of the code-shaped folding loop to the textbook prover, and the C02 verifier equivalence. The prover and verifier models are tied to the implementation by comparing every coordinate of every proof element and every scalar of the final check on the configuration lattice over a free-module group, plus prove-then-verify in the three modes over Ristretto and the free-module group.", _COMMON_NOTE,
+_claim("C01", "Completeness is a theorem about the model (C01_completeness, closed under the global context): for every bit length, aggregation m = 2^a <= capacity, extension degree, valid witness, nonce assignment and batch weight, the code-shaped prover's output makes the code-shaped verifier's final multiscalar product vanish (non-zero challenges, y <> 1). It composes the textbook weighted-inner-product completeness for any number of rounds, the range reduction with promises, the refinement of the code-shaped folding loop to the textbook prover, and the C02 verifier equivalence. The prover and verifier models are tied to the implementation by comparing every coordinate of every proof element and every scalar of the final check on the configuration lattice over a free-module group, plus prove-then-verify in the three modes over Ristretto and the free-module group. On the executed model: C01_honest_chunk_accepted (one member) and C01_honest_chunk_of_many_accepted (whole chunks of honest members, mixed aggregation, any weights) pass every guard of verify_chunk and end with the identity.", _COMMON_NOTE,
        'Coq proof (completeness of the code-shaped prover against the code-shaped verifier, all sizes) + coordinate-level model/implementation correspondence over a free-module group', "5/C01")
 _claim("C02", 'C02_verifier_equiv (closed under the global context): for ARBITRARY proof elements, statement and weight, the multiscalar product the optimised verifier evaluates (s-vector recurrence, running powers, doubling construction of d and its sum, closed-form geometric sum, batched inverses) equals weight * (right-hand side - left-hand side) of the textbook Bulletproofs+ verification equation written without optimisation (Model/RangeSpec.v), for every bit length, aggregation, round count and extension degree; hence it vanishes iff the textbook verifier accepts; C02_accepted_single_means_textbook_accepts carries this to the top of the executed model (a one-member chunk accepted by verify_chunk under a non-zero weight means the textbook verifier accepts the decoded pair). Every scalar the implementation feeds to its final multiscalar check is compared with the model on honest, mutated and structurally odd proofs. Knowledge soundness of the textbook protocol is trusted, not proved.', _COMMON_NOTE,
        'Coq proof (optimised verifier = textbook verifier for arbitrary proofs, all sizes) + scalar-by-scalar correspondence of the final multiscalar product', "5/C02")
@@ -31,7 +31,7 @@ _claim("C04", "The list of transcript operations of prover and verifier is a Gal
        'Coq proof (same challenge inputs for prover and verifier; injectivity of the operation list) + log correspondence + pairwise challenge-dependency runs', "5/C04")
 _claim("C05", 'Every position of accepted triples is altered (scalars, points, round structure, tag, commitments, order, promises, bit length, generators, context; also inside multi-chunk and mixed-aggregation batches) and must yield an error; the model predicts the verdict and the scalars. Proved: a changed absorbed component changes the transcript log (C05_absorbed_component_changes_log); an accepted proof with r1, s1 or d1 changed is refused deterministically over linearly independent generators (C05_r1_binding, C05_s1_binding, C05_d1_binding on the textbook equation; C05_altered_r1/s1/d1_refused on the multiscalar product the optimised verifier evaluates, under every non-zero weight; independence a hypothesis); shape mismatches are errors. Rejection after a changed absorbed component is probabilistic (random oracle) and stated as such.', _COMMON_NOTE,
        'Coq proof (deterministic rejections incl. response-scalar binding) + exhaustive position sweep with model correspondence', "5/C05")
-_claim("C06", "The prover's guard is a Gallina predicate proved equivalent to the witness relation for all u64 values and bit lengths (C06_witness_valid_iff, C06_shift_guard_64); on every generated (statement, witness) pair — exactly one violation at each position, cancelling two-position violations, boundary values, degenerate valid openings — it is evaluated inside Coq at the concrete field and compared with prove Ok/Err (chk_guard); every Ok is verified (and is accepted by C01_completeness on the model); valid cases are compared with the prover model coordinate by coordinate.", _COMMON_NOTE,
+_claim("C06", "The prover's guard is a Gallina predicate proved equivalent to the witness relation for all u64 values and bit lengths (C06_witness_valid_iff, C06_shift_guard_64); on every generated (statement, witness) pair — exactly one violation at each position, cancelling two-position violations, boundary values, degenerate valid openings — it is evaluated inside Coq at the concrete field and compared with prove Ok/Err (chk_guard); every Ok is verified; on the model prove_top (guard + proof computation) emits a proof iff the guard holds (C06_prove_emits_iff_witness_valid) and every emitted proof, with the commitments of the statement itself, passes every guard of verify_chunk and ends with the identity (C06_emitted_proof_verifies); valid cases are compared with the prover model coordinate by coordinate.", _COMMON_NOTE,
        'Coq proof (guard = witness relation) + guard model evaluated against prove Ok/Err on single-violation witnesses', "5/C06")
 _claim("C07", 'Promise handling (a_L offset, transcript absorption with None = 0, H-scalar term, range guard) modelled and compared. Proved: None = Some 0 in the log, a changed promise changes the log, oversized promises are refused, a promise enters the verification equation only through V_j - p_j H (C07_promise_is_commitment_shift, C07_P0_depends_on_shifted_commitments; part of C02_verifier_equiv), and the enforced relation gives promise <= value, value - promise < 2^bits (C01_range_reduction, C02_relation_implies_range). Promise grids at proving time, single substitutions at verification time, mixed-promise batches, guard order (an oversized promise must be refused before any transcript is touched).', _COMMON_NOTE,
        'Coq proof (promise enters only as a commitment shift; None = 0; guard) + differential promise sweeps with model correspondence', "5/C07")
@@ -39,7 +39,7 @@ _claim("C08", 'Weight derivation modelled as transcript operations (all of r1, s
        'Coq proof (weight-transcript structure, unique cancelling ratio, non-zero weights) + adaptive attack search + log correspondence', "5/C08")
 _claim("C09", "C09_prover_mask_recovered (closed under the global context): for one commitment, any bit length / capacity / extension degree / promise / nonces and non-zero challenges, the verifier's recovery formula applied to the responses the code-shaped prover emits, queried with the prover's own (seed-derived) nonces, returns exactly the blinding vector, every component in order; result alignment inside a chunk and across every chunk boundary (C09_batch_results_aligned: an Ok result is exactly map mask_of over the whole batch) and None for unseeded / verify-only are theorems too. Recovered masks are compared with the blinding factors position by position on the implementation for all bit lengths and extension degrees, batches mixing seeded/unseeded/aggregated members.", _COMMON_NOTE,
        'Coq proof (end-to-end recovery identity on prover + verifier models) + differential runs', "5/C09")
-_claim("C10", 'Proved: the verdict and every scalar of the final check are independent of seed and verifying mode, RecoverOnly returns the masks RecoverAndVerify returns, and — end to end on the prover and verifier models — a verifier querying another seed oracle recovers r_k plus an explicit combination of nonce differences over e^2 z^2 y^(N+1) (C10_wrong_seed_end_to_end), i.e. the true mask only if that combination vanishes (probability 1/l under the oracle assumption, not a theorem). Compared on valid/invalid proofs x seeds (incl. seeds differing in one byte) x modes.', _COMMON_NOTE,
+_claim("C10", 'Proved: the verdict and every scalar of the final check are independent of seed and verifying mode, RecoverOnly returns the masks RecoverAndVerify returns, and — end to end on the prover and verifier models — a verifier querying another seed oracle recovers r_k plus an explicit combination of nonce differences over e^2 z^2 y^(N+1) (C10_wrong_seed_end_to_end), i.e. the true mask only if that combination vanishes (probability 1/l under the oracle assumption, not a theorem). For whole batches across chunk boundaries: C10_batch_recover_only_same_masks, C10_batch_verdict_independent_of_seed_and_mode. Compared on valid/invalid proofs x seeds (incl. seeds differing in one byte) x modes.', _COMMON_NOTE,
        'Coq proof (non-interference of the seed; explicit wrong-seed offset) + differential runs', "5/C10")
 _claim("C12", 'C12_prover_capacity_independent (closed under the global context): generator sets that agree on H, Gb and the first m*bits vector generators give the same proof whatever the capacities and paddings; on the verifier side C12_verifier_capacity_independent: two owner tables that agree on the first max_mn generators give the same final product whatever lies beyond and whatever zero padding is applied. Padding, table owner and accumulation are modelled; every (prover capacity, verifier capacity) pair and mixed-capacity batches run on the code and are compared with the model; proofs must be byte-identical across prover capacities.', _COMMON_NOTE,
        'Coq proof (prover output independent of capacity; padding / prefix lemmas) + capacity-pair sweeps with model correspondence', "5/C12")
@@ -47,7 +47,7 @@ _claim("C13", "Source map slot -> (RNG instance, draw) | seed nonce(label, j, k)
        'Coq proof (distinct sources, key-layout injectivity, non-zero draws) + coordinate-level observation of every nonce', "5/C13")
 _claim("C14", "Transcript-RNG keying modelled as operations (witness bytes re-keyed into every instance, rebuilt after each update) and compared with the log; RNG fault models x one-datum-different run pairs must "
        "share no RNG-derived nonce.", _COMMON_NOTE, "Coq proof (keying structure, witness serialisation injective) + fault-model run pairs + log correspondence", "5/C14")
-_claim("C16", 'Guards of decoder and verifier modelled in code order; one lemma per partial operation of the Rust code (s-vector indices, `1 << rounds` only below 64, index into d, ilog2 of a constructor-validated count, non-zero chunk size, back-end length assertion, checked padding); hostile proofs/batches (incl. 512-1024 commitments per statement) in debug and release builds over two back ends must never panic; model predicts Ok/Err. Partial by nature (the list of partial operations is hand-enumerated; panics inside dependencies are runtime behaviour).', _COMMON_NOTE,
+_claim("C16", 'A three-valued (value / error / panic) model of verify and verify_batch with every partial machine operation explicit (unchecked usize arithmetic, shifts, ilog2, chunks(0), the two length assertions of the back end) is proved equal to the total model for constructor-built statements and arbitrary proofs, weights, modes and shapes (C16_verify_chunk_checked_is_total_model, C16_verify_batch_checked_is_total_model), hence never panics (C16_verify_batch_never_panics); after the round-count guard no index/shift/subtraction of the per-proof body can fail (C16_proof_body_checked). Guards of decoder and verifier modelled in code order; one lemma per partial operation of the Rust code (s-vector indices, `1 << rounds` only below 64, index into d, ilog2 of a constructor-validated count, non-zero chunk size, back-end length assertion, checked padding); hostile proofs/batches (incl. 512-1024 commitments per statement) in debug and release builds over two back ends must never panic; model predicts Ok/Err. Partial by nature (the list of partial operations is hand-enumerated; panics inside dependencies are runtime behaviour).', _COMMON_NOTE,
        'Coq proof (each enumerated partial operation stays inside its domain) + hostile-input exploration under catch_unwind (debug+release)', "5/C16")
 _claim("C11", "Label layout and chain indexing are a Gallina model with injectivity / prefix / table-order theorems; SHAKE256, SHA3-512 and the Ristretto one-way map are re-implemented in Gallina so that the generator BYTES are recomputed inside Coq and compared with the implementation (quick: parties 0-3 and all Pedersen points; thorough: all 4103 points), plus the recorded digest of the release's 4103 encodings, pairwise distinctness and non-identity of the implementation's points (exhaustive on the domain, by direct comparison, not a theorem), table order, capacity independence, racing first use.", "Trusted: Coq kernel + vm_compute + BigZ; Crypto/Keccak.v and Crypto/Ristretto.v model dependencies (validated by byte equality with the Rust crates on every run, not verified); harness gens driver. No axioms.",
        'Coq proof (label injectivity, chain prefix, table order) + byte-exact correspondence with a Gallina hash-to-group derivation; distinctness exhaustive on the finite domain', "5/C11")
